@@ -105,7 +105,7 @@ def _check_init(rep, prog, rid):
             texts += [a for c in s.calls if any(c[0].startswith(t + '.') for t in [path] + texts) for a in list(c[1]) + list(c[2].values())]
             if not texts:
                 raise AnalysisError('KeyAction.__init__: %s is never set' % path)
-            whole = re.compile(r'(?<![\w*])%s(?![\w\[])' % re.escape(src))
+            whole = re.compile(r'(?<![\w])%s(?![\w\[])' % re.escape(src))
             uses_all = any(whole.search(t) and 'SLICE(' + src not in t for t in texts)
             partial = any((src + '[') in t or ('SLICE(' + src) in t for t in texts)
             rep.check(uses_all and not partial, rid, 'KeyAction.__init__', '%s <- %s' % (attr, texts), what, where=init.where,
@@ -152,6 +152,15 @@ def _fact_atoms(s, alias=None):
             for a in skel_atoms(sk):
                 if a[0] != 'const':
                     out.append(_aliased(atom_key(a), alias)[0])
+    return out
+
+
+def _fact_atoms_all(states, alias=None):
+    out = []
+    for s in states:
+        for k in _fact_atoms(s, alias):
+            if k not in out:
+                out.append(k)
     return out
 
 
@@ -209,6 +218,49 @@ def _show(assign):
 
 
 _LEN = re.compile(r'^len\((.+)\)$')
+
+
+def skel_from_text(text):
+    """Boolean skeleton (the format of the interpreter's path facts) of a rendered condition: and / or / not / all([..]) /
+    any([..]) / `False not in (..)` / non-short-circuit & | over comparisons; anything else is an opaque atom."""
+    src = re.sub(r'\$(\d+)(?:\.(\d+))?', lambda m: 'B_%s_%s' % (m.group(1), m.group(2) or ''), text)
+    try:
+        tree = ast.parse(src, mode='eval').body
+    except SyntaxError:
+        return ('expr', text)
+
+    def un(n):
+        return re.sub(r'B_(\d+)_(\d*)', lambda m: '$%s%s' % (m.group(1), '.' + m.group(2) if m.group(2) else ''), ast.unparse(n))
+
+    def boolish(n):
+        return isinstance(n, (ast.Compare, ast.BoolOp)) or (isinstance(n, ast.UnaryOp) and isinstance(n.op, ast.Not)) or \
+            (isinstance(n, ast.BinOp) and isinstance(n.op, (ast.BitAnd, ast.BitOr)) and boolish(n.left) and boolish(n.right))
+
+    def build(n):
+        if isinstance(n, ast.BoolOp):
+            return ('and' if isinstance(n.op, ast.And) else 'or', [build(v) for v in n.values])
+        if isinstance(n, ast.UnaryOp) and isinstance(n.op, ast.Not):
+            return ('not', build(n.operand))
+        if isinstance(n, ast.BinOp) and isinstance(n.op, (ast.BitAnd, ast.BitOr)) and boolish(n.left) and boolish(n.right):
+            return ('and' if isinstance(n.op, ast.BitAnd) else 'or', [build(n.left), build(n.right)])
+        if isinstance(n, ast.Call) and dotted(n.func) in ('all', 'any') and len(n.args) == 1 and isinstance(n.args[0], (ast.List, ast.Tuple)):
+            return ('and' if dotted(n.func) == 'all' else 'or', [build(v) for v in n.args[0].elts])
+        if isinstance(n, ast.Call) and dotted(n.func) == 'bool' and len(n.args) == 1:
+            return build(n.args[0])
+        if isinstance(n, ast.Constant) and isinstance(n.value, bool):
+            return ('const', n.value)
+        if isinstance(n, ast.Compare) and len(n.ops) == 1:
+            l, r, op = n.left, n.comparators[0], n.ops[0]
+            if isinstance(op, (ast.In, ast.NotIn)) and isinstance(l, ast.Constant) and isinstance(l.value, bool) and isinstance(r, (ast.Tuple, ast.List)):
+                inner = ('or', [build(v) if l.value else ('not', build(v)) for v in r.elts])       # True in (..) / False in (..)
+                return inner if isinstance(op, ast.In) else ('not', inner)
+            ops = {ast.Eq: '==', ast.NotEq: '!=', ast.Is: 'is', ast.IsNot: 'is not', ast.In: 'in', ast.NotIn: 'not in', ast.Lt: '<', ast.LtE: '<=',
+                   ast.Gt: '>', ast.GtE: '>='}
+            return ('cmp', ops[type(op)], un(l), un(r))
+        if isinstance(n, ast.Call):
+            return ('call', un(n.func), [un(a) for a in n.args])
+        return ('expr', un(n))
+    return build(tree)
 
 
 def truthiness(key, subject):
@@ -272,7 +324,15 @@ def check_call_order(rep, prog, rid):
     if not reaching:
         raise AnalysisError('KeyAction wrapper: the wrapped operation is never called')
     # (1) the precondition check runs, for the addressed key, before the operation on every path that performs it
-    usage_text = ('with(%s.usage(%s, %s.get(\'user\')))' % (me, kp, kw))
+    users = ("%s.get('user')" % kw, "(%s['user'] if ('user' in %s) else None)" % (kw, kw))
+    selected = ['%s.usage(%s, %s)' % (me, kp, u_) for u_ in users]
+    usage_text = 'with(%s)' % selected[0]
+
+    def is_selected(a0):
+        """the context manager's value: `with U as x` or `stack.enter_context(U)`, U = self.usage(<addressed key>, <caller's identity>)"""
+        if a0 is None:
+            return False
+        return any(a0 == 'with(%s)' % u_ or (a0.endswith('.enter_context(%s)' % u_) and a0.startswith('with(')) for u_ in selected)
     for s in reaching:
         ac = action_calls(s)
         first = ac[0][0]
@@ -287,7 +347,13 @@ def check_call_order(rep, prog, rid):
         rep.check(len(ac) == 1, rid, 'KeyAction.__call__', '%d calls of the operation' % len(ac), 'the operation is carried out exactly once', where=where)
         for i, e in ac:
             a0 = e[2][0] if e[2] else None
-            rep.check(a0 == usage_text, rid, 'KeyAction.__call__', 'action(%s, ...)' % a0,
+            m_ = re.match(r'^(?:with\(|.*\.enter_context\()%s\.usage\((.*)\)\)$' % re.escape(me), a0 or '')
+            if not is_selected(a0) and m_ is not None:
+                uargs = _top_args(m_.group(1))
+                if len(uargs) == 2 and uargs[0] == kp and re.search(r'(?<![\w.])%s\b' % re.escape(kw), uargs[1]):
+                    # the addressed key and SOME reading of the caller's `user` keyword, in a spelling the rule does not know
+                    raise AnalysisError('KeyAction wrapper: identity handed to usage() not understood: %s' % uargs[1])
+            rep.check(is_selected(a0), rid, 'KeyAction.__call__', 'action(%s, ...)' % a0,
                       'the operation must run on the component that usage() selected for the addressed key and the chosen identity', where=where,
                       expected=usage_text, found=a0)
     # (2) refusals: no key material / no user id (except the first self-certification) - as a truth table over the decisions
@@ -361,6 +427,14 @@ def check_attributes(rep, prog, rid):
             if coll.replace(' ', '') in (conds, conds + '.keys()', 'list(%s)' % conds, 'iter(%s)' % conds):
                 return ('eq', frozenset(('getattr(%s, %s)' % (kp, b), '%s[%s]' % (conds, b))))
         return None
+    for s in raising:
+        # `for a, e in filter(<mismatch test>, conditions.items()): raise` - the fused filter is the decision taken
+        for b, f in getattr(s, 'filters', {}).items():
+            if b in s.bound and not any(t == f for t, v, sk in s.facts):
+                others = set(re.findall(r'\$\d+(?:\.\d+)?', f)) - {b}
+                f2 = f.replace(others.pop(), b) if len(others) == 1 else f          # the filter's own variable is the loop's element
+                f2 = f2.replace(b + '[0]', b + '_0').replace(b + '[1]', b + '_1')
+                s.facts.append((f, True, skel_from_text(f2)))
     rel = None
     for s in raising:
         rel = rel or pair_relation(s)
@@ -375,6 +449,8 @@ def check_attributes(rep, prog, rid):
             x = [y for y in k[1] if y != 'None'][0]          # next((pair for pair in .. if differs), None) is None: no pair differs
             m = re.match(r'^next\(EACH\(.+? in .+? if \((.+) != (.+?)\);.*\), None\)$', x)
             t = (m.group(1), m.group(2), True) if m else None
+        elif k[0] == 'call' and k[1] in ('operator.ne', 'operator.eq', 'ne', 'eq') and len(k[2]) == 2:
+            t = (k[2][0], k[2][1], k[1].endswith('eq'))
         elif k[0] == 'call' and k[1] in ('any', 'all') and len(k[2]) == 1:
             m = re.match(r'^EACH\(.+? in [^;]+;\((.+) (!=|==) (.+)\)\)$', k[2][0])
             if m and (k[1], m.group(2)) in (('any', '!='), ('all', '==')):
@@ -384,6 +460,12 @@ def check_attributes(rep, prog, rid):
         return None
     ok = rel is not None and bool(quiet)
     detail = 'no comparison of getattr(%s, <attr>) with the declared value found' % kp
+    if rel is not None and raising:
+        ks = [k for k in _fact_atoms_all(raising, alias)]
+        declared = [x for x in rel[1] if not x.startswith('getattr(')][0]
+        if rel not in ks and not any(declared in str(k) for k in ks):
+            # a raise exists but its condition does not compare the declared value in any form the rule reads
+            raise AnalysisError('KeyAction.check_attributes: mismatch test not understood: %s' % [f[0] for f in raising[0].facts][:3])
     if ok:
         n_mis = 0
         for assign in assignments(raising, alias=alias):
@@ -427,6 +509,23 @@ def _unwrap_truth(t):
             inner, p2 = _unwrap_truth(m.group(1))
             return inner, (pol if p2 else not pol)
     return t, True
+
+
+def _top_args(t):
+    out, depth, cur = [], 0, ''
+    for ch in t:
+        if ch in '([{':
+            depth += 1
+        elif ch in ')]}':
+            depth -= 1
+        if ch == ',' and depth == 0:
+            out.append(cur.strip())
+            cur = ''
+        else:
+            cur += ch
+    if cur.strip():
+        out.append(cur.strip())
+    return out
 
 
 def _balanced(s):
